@@ -42,6 +42,8 @@ def cases(tier, seed):
             out.append(('e3/nt=%d/%s' % (nt, 'x'.join(map(str, sch))), ('e3', nt, sch)))
     out.append(('SCML/int_points/array', ('intpts', seed)))
     out.append(('SCML/n_triplets_equals_n_features', ('minimal', seed)))
+    out.append(('SCML/10400_triplets/array', ('bigtrip', seed)))
+    out.append(('SCML_Supervised/same_array_edited_in_place', ('inplace', seed)))
     for dsn in (['S3u', 'S5'] if tier == 'quick' else data.THOROUGH):
         out.append(('generated_bases/%s' % dsn, ('genbasis', dsn, seed)))
     for dsn in (['S2', 'S3u', 'S5'] if tier == 'quick' else data.THOROUGH):
@@ -231,6 +233,78 @@ def run_case(spec):
         return dict(evals=evals, sigs=sigs, viol=viol, states=states, transitions=trans, ambiguous=amb_lda,
                     headroom={'lda_basis_projector_deviation': worst_lda},
                     sample={'kind': 'generated bases', 'dataset': dsn, 'n_basis sweep': 'd .. 5d (triplet_diffs), 2 .. 3d+1 (lda)'})
+    if spec[0] == 'bigtrip':
+        # more triplets than any evaluation shortcut could tolerate (10 400), noisy labels, many close checkpoints
+        ds = data.dataset('S5')
+        d = ds.d
+        rs = np.random.RandomState(15100)
+        X = np.round(ds.X / (2 * np.abs(ds.X).max()) * 64) / 64            # unit-sized, exactly representable
+        I = rs.randint(len(X), size=(14000, 3))
+        I = I[(I[:, 0] != I[:, 1]) & (I[:, 0] != I[:, 2]) & (I[:, 1] != I[:, 2])][:10400]
+        T = X[I]
+        dab, dac = ((T[:, 0] - T[:, 1]) ** 2).sum(1), ((T[:, 0] - T[:, 2]) ** 2).sum(1)
+        sw = dab > dac
+        T[sw] = T[sw][:, [0, 2, 1]]                    # Euclidean-consistent triplets ...
+        fl = rs.rand(len(T)) < 0.3
+        T[fl] = T[fl][:, [0, 2, 1]]                    # ... 30 % of them flipped (noise: many checkpoints of nearly equal objective)
+        Barr = np.vstack([np.eye(d), np.round(np.random.RandomState(11).randn(2 * d, d) * 4) / 4])
+        site = 'SCML.fit'
+        for (mi, oi, bs) in ((60, 3, 4), (40, 2, 8)):
+            for seed in range(6):
+                for beta, gamma in ((1e-3, 0.5), (1e-2, 5e-2)):
+                    tr = ['10400_triplets', 'beta=%g' % beta, 'gamma=%g' % gamma, 'sched=%d/%d/%d' % (mi, oi, bs), 'seed=%d' % seed]
+                    est = ml.SCML(basis=Barr.copy(), n_basis=None, beta=beta, gamma=gamma, max_iter=mi, output_iter=oi, batch_size=bs, random_state=seed)
+                    with Spy() as spy, warnings.catch_warnings(record=True) as wr:
+                        warnings.simplefilter('always')
+                        try:
+                            est.fit(T.copy())
+                        except Exception as e:
+                            viol.append(V(site, 'raises', 'fit raised %s: %s' % (type(e).__name__, str(e)[:120]), tr))
+                            continue
+                    evals += 1
+                    states += 1
+                    trans += 1
+                    basis, w = spy.calls[-1]
+                    draws = np.random.RandomState(seed).randint(0, len(T), size=(mi, bs))
+                    a, nontriv = judge(site, est, basis, w, T, draws, beta, gamma, oi, bs, tr, viol, wr, d)
+                    amb += int(a)
+                    if nontriv:
+                        sigs.add(('bigtrip', mi, oi, bs, seed, beta, int((np.asarray(w) > 0).sum())))
+        return dict(evals=evals, sigs=sigs, viol=viol, states=states, transitions=trans, ambiguous=amb,
+                    sample={'learner': 'SCML', 'triplets': len(T), 'basis': 'array', 'schedules': [[60, 3, 4], [40, 2, 8]], 'seeds': list(range(6))})
+    if spec[0] == 'inplace':
+        # the caller reuses ONE training array: fit, overwrite its content in place, fit again - the second model is the model of the
+        # second content (generated bases included)
+        for dsn in ('S3u', 'S5'):
+            ds = data.dataset(dsn)
+            d = ds.d
+            for basis_opt, nb in (('lda', 2 * d + 2), ('triplet_diffs', 4 * d)):
+                kw = dict(basis=basis_opt, n_basis=nb, k_genuine=2, k_impostor=3, max_iter=12, output_iter=3, batch_size=4, random_state=1)
+                buf = ds.X.copy()
+                est = ml.SCML_Supervised(**kw)
+                tr = ['basis=' + basis_opt, 'same_array_edited_in_place']
+                try:
+                    with warnings.catch_warnings():
+                        warnings.simplefilter('ignore')
+                        est.fit(buf, ds.y.copy())
+                        buf *= np.array([1.0, 2.0] + [0.5] * (d - 2))[:d]
+                        buf += 0.25
+                        est.fit(buf, ds.y.copy())
+                        fresh = ml.SCML_Supervised(**kw).fit(buf.copy(), ds.y.copy())
+                except Exception as e:
+                    viol.append(V('SCML_Supervised.fit', 'raises', 'fit raised %s: %s' % (type(e).__name__, str(e)[:120]), tr))
+                    continue
+                evals += 3
+                states += 2
+                trans += 2
+                sigs.add(('inplace', dsn, basis_opt))
+                if not np.array_equal(est.components_, fresh.components_):
+                    viol.append(V('SCML_Supervised.fit', 'stale_after_in_place_edit', 'fit(X), X edited in place, fit(X): the second model differs from a '
+                                  'fresh estimator fitted on the same content (max abs difference %.3g): it is not built from the bases / triplets '
+                                  'of the data it was given' % (np.abs(est.get_mahalanobis_matrix() - fresh.get_mahalanobis_matrix()).max()
+                                                                if est.components_.shape == fresh.components_.shape else np.nan), tr))
+        return dict(evals=evals, sigs=sigs, viol=viol, states=states, transitions=trans, ambiguous=amb,
+                    sample={'learner': 'SCML_Supervised', 'history': 'fit, edit the array in place, fit', 'bases': ['lda', 'triplet_diffs']})
     if spec[0] == 'intpts':
         # integer-typed points (int64 triplets / int64 X) with a REAL-valued basis: same M as for the float-typed copy
         ds = data.scaled(data.dataset('S3u'), 64.0)
